@@ -324,6 +324,57 @@ Proof.
   - intros [[p [Hp Hc]]|[p [Hp Hs]]]; exists p; (split; [exact Hp|]); apply contains_snoc; [left|right]; assumption.
 Qed.
 
+(* ---------- add_end when the end state is a fresh key ---------- *)
+Lemma dict_set_fresh {B} k (v : B) l : ~ In k (map fst l) -> dict_set k v l = l ++ [(k, v)].
+Proof.
+  induction l as [|[k' v'] r IH]; intro H; [reflexivity|]. simpl. destruct (Nat.eqb k k') eqn:E.
+  - apply Nat.eqb_eq in E. subst k'. exfalso. apply H. left. reflexivity.
+  - rewrite IH; [reflexivity|]. intro Hin. apply H. right. exact Hin.
+Qed.
+
+Lemma dict_set_present {B} k (v : B) l : NoDup (map fst l) -> In k (map fst l) ->
+  dict_set k v l = map (fun r => if Nat.eqb (fst r) k then (fst r, v) else r) l.
+Proof.
+  induction l as [|[k' v'] r IH]; intros Hnd Hin; [destruct Hin|]. simpl in *. inversion Hnd as [|? ? Hnot Hnd']; subst.
+  rewrite (Nat.eqb_sym k' k). destruct (Nat.eqb k k') eqn:E.
+  - apply Nat.eqb_eq in E. subst k'. f_equal. symmetry. rewrite <- (map_id r) at 2. apply map_ext_in.
+    intros [k2 v2] Hin2. simpl. destruct (Nat.eqb k2 k) eqn:E2; [|reflexivity]. apply Nat.eqb_eq in E2. subst k2.
+    exfalso. apply Hnot. apply in_map_iff. exists (k, v2). split; [reflexivity|exact Hin2].
+  - f_equal. apply IH; [exact Hnd'|]. destruct Hin as [->|Hin]; [rewrite Nat.eqb_refl in E; discriminate|exact Hin].
+Qed.
+
+Lemma fold_redirect {B} (v : B) : forall F l, NoDup (map fst l) -> incl F (map fst l) ->
+  fold_left (fun rs q => dict_set q v rs) F l = map (fun r => if memb (fst r) F then (fst r, v) else r) l.
+Proof.
+  induction F as [|q F IH]; intros l Hnd Hinc.
+  - simpl. symmetry. rewrite <- (map_id l) at 2. apply map_ext. intros [k w]. reflexivity.
+  - simpl. rewrite (dict_set_present q v l Hnd (Hinc q (or_introl eq_refl))).
+    assert (Hk : map fst (map (fun r : nat * B => if Nat.eqb (fst r) q then (fst r, v) else r) l) = map fst l).
+    { rewrite map_map. apply map_ext. intros [k w]. simpl. destruct (Nat.eqb k q); reflexivity. }
+    rewrite IH; [|rewrite Hk; exact Hnd|rewrite Hk; intros x Hx; apply Hinc; right; exact Hx].
+    rewrite map_map. apply map_ext. intros [k w]. simpl. rewrite (Nat.eqb_sym k q).
+    destruct (Nat.eqb q k) eqn:E; simpl.
+    + destruct (memb k F); reflexivity.
+    + reflexivity.
+Qed.
+
+Lemma add_end_eq syms rows finals :
+  NoDup (map fst rows) -> ~ In (length rows) (map fst rows) -> incl finals (map fst rows) ->
+  add_end syms rows finals =
+  (map (fun r => if memb (fst r) finals then (fst r, map (fun a => (a, length rows)) syms) else r) rows
+     ++ [(length rows, map (fun a => (a, length rows)) syms)],
+   finals ++ [length rows]).
+Proof.
+  intros Hnd Hfresh Hinc. unfold add_end.
+  assert (Hm : memb (length rows) finals = false) by (apply memb_false; intro H; apply Hfresh, Hinc; exact H).
+  rewrite Hm. f_equal. rewrite (dict_set_fresh _ _ rows Hfresh).
+  rewrite fold_redirect.
+  - rewrite map_app. simpl. rewrite Hm. reflexivity.
+  - rewrite map_app. simpl. apply NoDup_app_intro; [exact Hnd|repeat constructor; intros []|].
+    intros x Hx [<-|[]]. exact (Hfresh Hx).
+  - intros x Hx. rewrite map_app. apply in_or_app. left. apply Hinc. exact Hx.
+Qed.
+
 (* ---------- the assembled automaton ---------- *)
 Section ACDfa.
   Variable N : list tnode.
@@ -445,7 +496,7 @@ Section ACDfa.
 
   Lemma add_end_rows : fst (add_end syms rows finals) =
     map (fun r => if memb (fst r) finals then (fst r, map (fun a => (a, e)) syms) else r) rows ++ [(e, map (fun a => (a, e)) syms)].
-  Proof. reflexivity. Qed.
+  Proof. rewrite (add_end_eq syms rows finals vis_NoDup e_fresh finals_vis). reflexivity. Qed.
 
   Lemma rows2_keys : map fst (fst (add_end syms rows finals)) = vis ++ [e].
   Proof.
@@ -527,7 +578,9 @@ Section ACDfa.
     let m := mkdfa (map fst (fst rf)) syms (fst rf) 0 (fin_of c (snd rf) (map fst (fst rf))) false in
     valid_dfa m = true /\ forall w, dfa_acc m w = overb syms w && flagb c (anysubb P w).
   Proof.
-    cbn zeta. rewrite rows2_keys. change (snd (add_end syms rows finals)) with (finals ++ [e]).
+    cbn zeta. rewrite rows2_keys.
+    replace (snd (add_end syms rows finals)) with (finals ++ [e])
+      by (rewrite (add_end_eq syms rows finals vis_NoDup e_fresh finals_vis); reflexivity).
     assert (Hinit : In 0 (vis ++ [e])) by (apply in_or_app; left; exact init_vis).
     assert (Hfin : incl (fin_of c (finals ++ [e]) (vis ++ [e])) (vis ++ [e])).
     { unfold fin_of. destruct c.
